@@ -213,6 +213,29 @@ pub fn classify(s: &Desc, t: &Desc) -> String {
     }
 }
 
+/// The class with leaf names blanked: the granularity of coverage tags.
+pub fn classify_coarse(s: &Desc, t: &Desc) -> String {
+    const LEAVES: [&str; 17] =
+        ["bool", "char", "()", "Asn", "IpAddr", "Prefix", "String", "u8", "u16", "u32", "u64", "i8", "i16", "i32", "i64", "f32", "f64"];
+    let full = classify(s, t);
+    let mut out = String::new();
+    let mut tok = String::new();
+    let flush = |tok: &mut String, out: &mut String| {
+        out.push_str(if LEAVES.contains(&tok.as_str()) { "leaf" } else { tok.as_str() });
+        tok.clear();
+    };
+    for c in full.chars() {
+        if matches!(c, '<' | '>' | ',' | '-' | '+') {
+            flush(&mut tok, &mut out);
+            out.push(c);
+        } else {
+            tok.push(c);
+        }
+    }
+    flush(&mut tok, &mut out);
+    out
+}
+
 // ---------------------------------------------------------------------------
 // The term trait
 // ---------------------------------------------------------------------------
@@ -887,6 +910,24 @@ pub struct Mon {
     pub no_reset: bool,
     /// a zero-sized registered value is a direct parameter of the function under test:
     /// disturbed neighbours are one defect class with one signature
+    /// (`boundary:args-after-zero-sized-param@TrkZ`). Minimal reproduction:
+    ///
+    /// ```text
+    /// #[derive(Clone, Debug, PartialEq)] struct Marker;              // zero-sized
+    /// library! { #[clone] type Marker = Val<Marker>;
+    ///            fn host(m: Val<Marker>, x: u64) -> u64 { x }
+    ///            fn mk() -> Val<Marker> { Val(Marker) } }
+    /// fn second(m: Marker, x: u64) -> u64 { x }                      // Roto
+    /// fn to_host(x: u64) -> u64 { host(mk(), x) }                    // Roto
+    /// get_function::<fn(Val<Marker>, u64) -> u64>("second").call(Val(Marker), 7)  // = address of the marker
+    /// get_function::<fn(u64) -> u64>("to_host").call(7)                           // = garbage
+    /// ```
+    /// Compiled code drops zero-sized parameters from its signatures
+    /// (src/lir/lower.rs `lower_type` returns None for size 0: function signatures
+    /// and `call_runtime` arguments), but `Val<T>::AsParam` is `*mut T` for every T
+    /// (src/value/mod.rs), so `RotoFunc::invoke` (src/codegen/check.rs) and the
+    /// registered-function trampolines (src/runtime/func.rs) still pass / expect a
+    /// pointer: every later integer-class argument moves by one register.
     pub zst_param: bool,
     pub calls: u64,
     pub checks: u64,
